@@ -42,7 +42,10 @@ def stream(b, builders):
 def conditional_blocks(b):
     """dynasm blocks nested under if / match / for inside the builder"""
     n = 0
+    unrolled = getattr(b, "unrolled", set())
     for ctl in A.find(b.fn["body"], None, lambda x: x.get("k") in ("If", "Match", "For", "While", "Loop")):
+        if ctl.get("k") == "For" and all(id(m) in unrolled for m in A.find(ctl, "Macro") if m.get("name") == "dynasm"):
+            continue  # a constant-trip loop, read as its instructions written out (asm._unroll)
         for m in A.find(ctl, "Macro"):
             if m.get("name") == "dynasm":
                 n += 1
